@@ -189,7 +189,7 @@ func oneBurst(c C09Case, rep int) (sig, msg string, nt bool) {
 		b := a + "1"
 		env.Track(b)
 		for _, x := range []string{a, b} {
-			env.SetAccount(x, 1, c.Bal, fmt.Sprint(c.Cost))
+			acctSet(x, 1, c.Bal, fmt.Sprint(c.Cost))
 			credited[x] = c.Bal
 		}
 		subs = append(subs, a, b)
@@ -197,7 +197,7 @@ func oneBurst(c C09Case, rep int) (sig, msg string, nt bool) {
 	if c.Kind != "same-new-supi" && c.Kind != "prefix-supi-creates" {
 		for i := 0; i < nSubs; i++ {
 			supi := env.NewSupi()
-			env.SetAccount(supi, 1, c.Bal, fmt.Sprint(c.Cost))
+			acctSet(supi, 1, c.Bal, fmt.Sprint(c.Cost))
 			credited[supi] = c.Bal
 			subs = append(subs, supi)
 			s, ok := newSession(supi)
@@ -237,7 +237,7 @@ func oneBurst(c C09Case, rep int) (sig, msg string, nt bool) {
 		case "same-new-supi":
 			if i == 0 {
 				supi := env.NewSupi()
-				env.SetAccount(supi, 1, c.Bal, fmt.Sprint(c.Cost))
+				acctSet(supi, 1, c.Bal, fmt.Sprint(c.Cost))
 				credited[supi] = c.Bal
 				subs = append(subs, supi)
 			}
@@ -359,11 +359,11 @@ func oneBurst(c C09Case, rep int) (sig, msg string, nt bool) {
 		}
 	}
 	for _, supi := range subs {
-		snap := verifapi.Snapshot(supi)
+		snap := snapshot(supi)
 		if snap.Locked {
 			return "subscriber-locked", "a subscriber is still locked after the burst returned", nt
 		}
-		q, err := env.Quota(supi, 1)
+		q, err := acctQuota(supi, 1)
 		if err != nil {
 			return "quota-unreadable", err.Error(), nt
 		}
